@@ -125,4 +125,4 @@ def raw_case(draw) -> Dict[str, Any]:
     fractional = pick(draw, [True, False])
     ranks = [draw(raw_rank(r, epoch + (pick(draw, [0, 3, 17]) if r else 0), fractional)) for r in range(nranks)]
     return {"ranks": ranks, "fmt": [pick(draw, ["json", "gz"]) for _ in range(nranks)], "fractional": fractional,
-            "mp": pick(draw, [True, False, False]), "mode": pick(draw, ["load", "parse", "analysis"])}
+            "mp": pick(draw, [True, False, False]), "mode": pick(draw, ["load", "parse", "analysis", "dir"])}
